@@ -1,8 +1,12 @@
 #!/bin/sh
-# usage: mutant.sh <patch> <PROP> [check args...] — apply a patch to /repo, run the check, undo the patch
+# usage: mutant.sh <patch> <PROP> [check args...]
+# Run a check against /repo's working tree with a patch applied. The patch is applied to a scratch copy of the
+# tree (rsync, no .git) and the check is pointed at it with VERIF_REPO, so that /repo itself is never modified
+# while other checks may be running; the result is the same as
+#   git -C /repo apply <patch>; ./check <PROP>; git -C /repo checkout -- .
 p="$(realpath "$1")"; prop="$2"; shift 2
-git -C /repo apply "$p" || exit 9
-/verif/check "$prop" --no-evidence "$@"
-rc=$?
-git -C /repo checkout -- .
-exit $rc
+D=$(mktemp -d /tmp/verif-mutant-XXXXXX)
+trap 'rm -rf "$D"' EXIT
+rsync -a --exclude .git /repo/ "$D"/ || exit 9
+(cd "$D" && git apply "$p") || { echo "mutant.sh: patch does not apply to the current tree: $p"; exit 9; }
+VERIF_REPO="$D" /verif/check "$prop" --no-evidence "$@"
